@@ -94,7 +94,7 @@ func (m *CDense) Slice(i, k, j, l int) CMatrix {
 
 func (m *CDense) slice(i, k, j, l int) *CDense {
 	mr, mc := m.Caps()
-	if i < 0 || mr <= i || j < 0 || mc <= j || k < i || mr < k || l < j || mc < l {
+	if i < 0 || mr <= i || j < 0 || mc <= j || k <= i || mr < k || l <= j || mc < l {
 		if i == k || j == l {
 			panic(ErrZeroLength)
 		}
